@@ -5,7 +5,8 @@
    harness/props/c03.py.  The LALR grammar check is abstract: any function of the
    token list that reports errors at token indices. *)
 From Coq Require Import List ZArith Bool Arith.
-From YV Require Import Common.Corr Gen.LexFacts Model.Lexer Lemmas.LexerTotal.
+From YV Require Import Common.Corr Gen.LexFacts Gen.OpTables Model.OpTable Model.Lexer Model.LexerTables
+  Lemmas.LexerTotal Lemmas.LexerTables.
 Import ListNotations.
 
 (* the configuration read from the current tree is well formed: no string rule
@@ -83,6 +84,54 @@ Theorem C03_total : forall cfg (gram : list token -> option (option nat)) s,
   | PGram None | POk => True
   end.
 Proof. exact (fun cfg gram s WF G => parse_outcome_total cfg gram G s WF). Qed.
+
+(* ---- every engine a host can build ----
+   [ops] is ANY operator list (factory.operators after any sequence of insert_operator
+   calls / removals / keyword_operator choice); if _build_operator_table accepts it and
+   no symbol is empty, the configuration Lexer.__init__ and ply derive from it
+   (Model/LexerTables.v: string rules by decreasing regex length, operator table, token
+   names) is well formed ... *)
+Theorem C03_any_table_wf : forall ops base cfg,
+  ops_symbols_nonempty ops = true -> base_okb base = true ->
+  cfg_of_ops ops base = Some cfg -> cfg_wfb cfg = true.
+Proof. exact cfg_of_ops_wf. Qed.
+
+(* ... so lexing with that engine is total ... *)
+Theorem C03_lex_total_any_table : forall ops base cfg s,
+  ops_symbols_nonempty ops = true -> base_okb base = true -> cfg_of_ops ops base = Some cfg ->
+  match snd (lex cfg s) with
+  | EndOk => True
+  | EndLexErr p => (p < length s)%nat
+  | EndForeign => False
+  | EndFuel => False
+  end.
+Proof. exact (fun ops base cfg s NE BO H => C03_lex_total cfg s (cfg_of_ops_wf ops base cfg NE BO H)). Qed.
+
+(* ... and so is parsing, for any grammar check reporting its errors at tokens *)
+Theorem C03_total_any_table : forall ops base cfg (gram : list token -> option (option nat)) s,
+  ops_symbols_nonempty ops = true -> base_okb base = true -> cfg_of_ops ops base = Some cfg ->
+  (forall toks i, gram toks = Some (Some i) -> (i < length toks)%nat) ->
+  match parse_outcome cfg gram s with
+  | PForeign | PFuel => False
+  | PLex p => (p < length s)%nat
+  | PGram (Some p) => (p < length s)%nat /\ exists t, In t (fst (lex cfg s)) /\ tk_pos t = p
+  | PGram None | POk => True
+  end.
+Proof. exact (fun ops base cfg gram s NE BO H G => C03_total cfg gram s (cfg_of_ops_wf ops base cfg NE BO H) G). Qed.
+
+(* the construction reproduces the live default engine: from the regenerated default
+   operator list it yields exactly the string rules (in master-regex order) and the
+   operator table read from the live lexer, and the same set of token names; the
+   default and legacy lists have no empty symbol and the regenerated base is guarded *)
+Theorem C03_table_cfg_is_live_default : forall names,
+  option_map op_strs (cfg_of_ops default_ops (default_cfg names)) = Some op_rules /\
+  option_map op_table (cfg_of_ops default_ops (default_cfg names)) = Some operator_table /\
+  option_map (fun c => forallb (fun t => mem_text t (tok_names c)) token_names &&
+                       forallb (fun t => mem_text t token_names) (tok_names c))
+             (cfg_of_ops default_ops (default_cfg names)) = Some true /\
+  ops_symbols_nonempty default_ops = true /\ ops_symbols_nonempty legacy_ops = true /\
+  base_okb (default_cfg names) = true.
+Proof. intro names. repeat split; vm_compute; reflexivity. Qed.
 
 (* ---- the statements are not vacuous ---- *)
 Definition nonames : text -> option Z := fun _ => None.
